@@ -121,7 +121,15 @@ func (p *PropDef) RunCase(seed int64, tier string, idx int) vp.CaseResult {
 	if p.Hooks != nil {
 		hooks = p.Hooks(sc)
 	}
-	out := Run(sc, hooks)
+	var out *Outcome
+	if f := os.Getenv("VF_REJUDGE"); f != "" {
+		// adjudication aid: judge a recorded history (replays/events/*.jsonl) again
+		// instead of producing a new one
+		out = loadOutcome(f, sc)
+		sc = out.Sc
+	} else {
+		out = Run(sc, hooks)
+	}
 	res := vp.CaseResult{Stats: map[string]int64{}, Sets: map[string][]string{}}
 	DumpEvents(os.Getenv("VF_EVENTS"), sc, out.Evs)
 	if out.Inconclusive != "" && len(out.Evs) == 0 {
@@ -214,6 +222,45 @@ func ChoosePoints(sc *Scenario, seed int64, idx int, bias []string) {
 }
 
 // DumpEvents writes a scenario and its history as JSON lines (development aid).
+// loadOutcome reads a history written by DumpEvents.
+func loadOutcome(f string, sc *Scenario) *Outcome {
+	out := &Outcome{Sc: sc, Settled: true}
+	b, err := os.ReadFile(f)
+	if err != nil {
+		out.Inconclusive = "cannot read " + f
+		return out
+	}
+	lines := strings.Split(string(b), "\n")
+	for i, l := range lines {
+		if i == 0 {
+			// the scenario as it was when the history was recorded
+			rec := &Scenario{}
+			if json.Unmarshal([]byte(l), rec) == nil && rec.Topo.Pipeline != "" {
+				out.Sc = rec
+				sc = rec
+			}
+			continue
+		}
+		if strings.TrimSpace(l) == "" {
+			continue
+		}
+		var e rig.Ev
+		if json.Unmarshal([]byte(l), &e) != nil {
+			out.Inconclusive = "cannot parse " + f
+			return out
+		}
+		out.Evs = append(out.Evs, e)
+	}
+	for i := len(out.Evs) - 1; i >= 0; i-- {
+		if out.Evs[i].Kind == rig.KCommit && out.Evs[i].Snap != nil {
+			out.FinalStatus = out.Evs[i].Snap.Status[sc.Topo.Pipeline]
+			out.FinalStored = out.Evs[i].Snap.Pos
+			break
+		}
+	}
+	return out
+}
+
 func DumpEvents(f string, sc *Scenario, evs []rig.Ev) {
 	if f == "" {
 		return
